@@ -150,7 +150,20 @@ func gen(t *rapid.T) Case {
 		}
 		c.Rel = "edit"
 	}
-	if rapid.IntRange(0, 2).Draw(t, "rootcfg?") == 0 {
+	// backslash twins: one derivation has the single prefix part `x\` and the tag k, the other no
+	// prefix and the tag `x+k` - different identities (and different canonical keys), which a key
+	// writer that escapes its delimiters with a backslash, but not the backslash, would merge
+	bsTwin := !twin && rapid.IntRange(0, 19).Draw(t, "bsTwin") == 0
+	var bsBase pbt.S
+	if bsTwin {
+		if len(E) == 0 {
+			E = append(E, KV{"k", "v"})
+		}
+		bsBase = pbt.S(rapid.StringMatching(`[ab]{0,2}`).Draw(t, "bsBase"))
+		P = []pbt.S{bsBase + `\`}
+		c.Rel = "edit"
+	}
+	if rapid.IntRange(0, 2).Draw(t, "rootcfg?") == 0 && !bsTwin {
 		c.RootPrefix = str().Draw(t, "rootPrefix")
 		for i, n := 0, rapid.IntRange(0, 2).Draw(t, "nroottags"); i < n; i++ {
 			c.RootTags = append(c.RootTags, KV{str().Draw(t, "rk"), str().Draw(t, "rv")})
@@ -172,7 +185,11 @@ func gen(t *rapid.T) Case {
 		P2 = append(append(append([]pbt.S(nil), P2[:i]...), joined), P2[i+2:]...)
 		c.Edit = "resplit"
 	}
-	if twin {
+	if bsTwin {
+		P2 = nil
+		E2[0] = KV{bsBase + "+" + E2[0].K, E2[0].V}
+		c.Edit = "backslash-twin"
+	} else if twin {
 		other := pbt.S(rapid.SampledFrom([]string{"\ufffd", "\xfe", "\xc3", "\xff\xff"}).Draw(t, "twinOther"))
 		if twinKey {
 			E2[twinAt] = KV{twinBase + other + twinTail, E2[twinAt].V}
@@ -479,7 +496,7 @@ func run(c Case) (pbt.Outcome, error) {
 func TestScopes(t *testing.T) {
 	pbt.Main(t, pbt.Prop[Case]{
 		ID: "C05", Name: "scopes",
-		Rule: "rapid-generated PAIRS of derivation programs from one root (registry shard count 1..64 via the verif constructor shim; plain/cached; in a third of the cases the root has a prefix, tags of its own and a separator from {default, '.', '_', '::', '-', '+', 'a'}): both derived from prefix parts P and effective tags E by permuting and regrouping the assignments into Tagged calls interleaved with the SubScope steps (plus overridden noise assignments, empty and nil maps); relation 'same' keeps (P,E) - or asks for two adjacent prefix parts in ONE SubScope call, joined by the separator -, relation 'edit' applies exactly one edit (change/add/drop a prefix part, key, value or tag, or fold the next pair into a value with the key format's own delimiters). Alphabet rich in ',', '=', '+' and the empty string; in a third of the cases the root has a sanitizer and all inputs are ones it leaves unchanged; in a third, a prefix child of one of A's intermediate scopes recorded, was closed and was dropped by a report pass before the two derivations are made. Oracle: same identity => pointer-equal scopes and metrics (also when asked twice); different identity => different pointers and increments 3/5 arrive only under their own (name,tags). Pairs of different identities whose reference canonical key strings are byte-equal are the recorded delimiter ambiguity: excluded only while listed open. Every generated pair is non-trivial by construction (regrouped or one edit apart). Distinct: FNV-64 of the case JSON.",
+		Rule: "rapid-generated PAIRS of derivation programs from one root (registry shard count 1..64 via the verif constructor shim; plain/cached; in a third of the cases the root has a prefix, tags of its own and a separator from {default, '.', '_', '::', '-', '+', 'a'}): both derived from prefix parts P and effective tags E by permuting and regrouping the assignments into Tagged calls interleaved with the SubScope steps (plus overridden noise assignments, empty and nil maps); relation 'same' keeps (P,E) - or asks for two adjacent prefix parts in ONE SubScope call, joined by the separator -, relation 'edit' applies exactly one edit (change/add/drop a prefix part, key, value or tag, or fold the next pair into a value with the key format's own delimiters; or the pair {prefix `x\\`, tag k} versus {no prefix, tag `x+k`}). Alphabet rich in ',', '=', '+' and the empty string; in a third of the cases the root has a sanitizer and all inputs are ones it leaves unchanged; in a third, a prefix child of one of A's intermediate scopes recorded, was closed and was dropped by a report pass before the two derivations are made. Oracle: same identity => pointer-equal scopes and metrics (also when asked twice); different identity => different pointers and increments 3/5 arrive only under their own (name,tags). Pairs of different identities whose reference canonical key strings are byte-equal are the recorded delimiter ambiguity: excluded only while listed open. Every generated pair is non-trivial by construction (regrouped or one edit apart). Distinct: FNV-64 of the case JSON.",
 		Gen:  gen, Run: run, HangAfter: 20 * time.Second,
 	})
 }
